@@ -18,6 +18,19 @@ where
         None => ev.t(&enc),
         Some(p) => ev.p(&p),
     }
+    // the other spellings of the same encoding: using_encoded (storage / hashing path), encode_to,
+    // size_hint-independent embedding in a tuple (prefix byte 7 must follow the value's bytes)
+    let mut enc2: [Vec<u8>; 3] = [Vec::new(), Vec::new(), Vec::new()];
+    match guard(&mut || {
+        let a = x.using_encoded(|b| b.to_vec());
+        let mut b = Vec::new();
+        x.encode_to(&mut b);
+        let c = (x, 7u8).encode();
+        enc2 = [a, b, c];
+    }) {
+        None => enc2.iter().for_each(|b| ev.t(b)),
+        Some(p) => ev.p(&p),
+    }
     ev.rec_v(&mut || x.encoded_size() as u128);
     ev.rec_v(&mut || F::max_encoded_len() as u128);
     let mut benc: Vec<u8> = Vec::new();
